@@ -419,11 +419,11 @@ theorem simplify_modes {γ ω : Type} (obs : List ω) (c : CostFn γ α) (builti
 
 /-! ## stop detection -/
 
-/-- **matrix construction** of `findStopsGlobal`: the row loops with their `break`, then `C + C.T`, put in every pair
-of candidates `a < b ≤ size − 2` the reward `stopsReward a b` — `(b − a)²` iff (1) no end point `p_{j'−1}`,
-`a < j' ≤ b`, is farther than `diameter` from `p_a` (`farBefore`, the `break`), (2) NOT
-`t(p_{b−1}) − t(p_a) ≤ duration`, (3) `minCircle` returns a circle with `2·radius < diameter`; `0` otherwise — and the
-matrix is symmetric. -/
+/-- **matrix construction** of stop detection: the row loops with their `break`, then `C + C.T`, put in every pair
+of candidates `a < b ≤ size − 2` the reward `stopsReward a b` — `(b − a)²` iff (1) the `break` test `far` holds for no
+end point `p_{j'−1}`, `a < j' ≤ b` (`farBefore`), (2) the `continue` test `short` does not hold for `(a, b−1)`, (3) the size
+of the segment could be computed and is admitted (`small = some true`); `0` otherwise — and the matrix is symmetric.
+`stops_documented` instantiates the three tests with those of `findStopsGlobal`. -/
 theorem stops_matrix (sq : Nat → α) (p : StopPred) (size : Nat) :
     (∀ a b, stopsMatrix 0 sq p size a b = stopsMatrix 0 sq p size b a) ∧
     (∀ a b, a < b → stopsMatrix 0 sq p size a b = stopsReward 0 sq p size a b) ∧
@@ -471,18 +471,53 @@ theorem stops_matrix (sq : Nat → α) (p : StopPred) (size : Nat) :
             · cases hc
             · exact absurd rfl hc
 
-/-- **T3 (stop detection)**: the segmentation computed inside `findStopsGlobal` is a strictly increasing list from
-`0` to `size − 2` that MAXIMISES the summed reward `Σ stopsReward(i_k, i_{k+1})` over all such lists.
+/-- **criterion of `findStopsGlobal`** (tests as written since 026cb79): for candidates `a < b ≤ size − 2` the reward is
+`(b − a)²` exactly when every end point `p_{j'−1}`, `a < j' ≤ b`, is within `diameter` of `p_a`, the segment lasts AT LEAST
+`duration` (`duration ≤ t(p_{b−1}) − t(p_a)`), and `minCircle` returns a circle of diameter AT MOST `diameter`; `0`
+otherwise. These are the documented, inclusive boundaries (source comment: `0` if the circle is `> diameter`, `0` if the
+duration is `< duration`, `(j−i)²` otherwise; same boundaries as the function's final filter). The first condition is
+implied by the third for exact geometry (a far end point forces the enclosing circle above `diameter`): it is the
+`break` shortcut. A `None` circle gives `0` (source: "TODO : à valider"). -/
+theorem stops_documented (sq : Nat → α) (dist dur : Nat → Nat → α) (circ : Nat → Nat → Option α) (diameter duration : α)
+    (size a b : Nat) (hab : a < b) (hb : b ≤ size - 2) (hs : 3 ≤ size) :
+    let admitted := (∀ j, a < j → j ≤ b → dist a (j - 1) ≤ diameter) ∧ duration ≤ dur a (b - 1) ∧
+      ∃ d, circ a (b - 1) = some d ∧ d ≤ diameter
+    (admitted → stopsReward 0 sq (stopPredGlobal dist dur circ diameter duration) size a b = sq (b - a)) ∧
+    (¬ admitted → stopsReward 0 sq (stopPredGlobal dist dur circ diameter duration) size a b = 0) := by
+  intro admitted
+  obtain ⟨h0, h1⟩ := (stops_matrix sq (stopPredGlobal dist dur circ diameter duration) size).2.2 a b hab hb hs
+  have key : ((∃ j, a < j ∧ j ≤ b ∧ (stopPredGlobal dist dur circ diameter duration).far a (j - 1) = true) ∨
+      (stopPredGlobal dist dur circ diameter duration).short a (b - 1) = true ∨
+      (stopPredGlobal dist dur circ diameter duration).small a (b - 1) ≠ some true) ↔ ¬ admitted := by
+    simp only [stopPredGlobal, decide_eq_true_eq, admitted]
+    constructor
+    · rintro (⟨j, h1, h2, h3⟩ | h | h)
+      · rintro ⟨hf, _, _⟩; exact absurd (hf j h1 h2) (not_le.mpr h3)
+      · rintro ⟨_, hd, _⟩; exact absurd hd (not_le.mpr h)
+      · rintro ⟨_, _, d, hc, hd⟩
+        apply h; rw [hc]; simp [not_lt.mpr hd]
+    · intro hn
+      by_cases hf : ∃ j, a < j ∧ j ≤ b ∧ diameter < dist a (j - 1)
+      · exact Or.inl hf
+      · by_cases hd : dur a (b - 1) < duration
+        · exact Or.inr (Or.inl hd)
+        · right; right
+          intro hsm
+          apply hn
+          refine ⟨fun j h1 h2 => not_lt.mp (fun h => hf ⟨j, h1, h2, h⟩), not_lt.mp hd, ?_⟩
+          cases hc : circ a (b - 1) with
+          | none => rw [hc] at hsm; simp at hsm
+          | some d =>
+            rw [hc] at hsm
+            refine ⟨d, rfl, ?_⟩
+            simp at hsm
+            exact hsm
+  exact ⟨fun h => h1 (fun hc => (key.mp hc) h), fun h => h0 (key.mpr h)⟩
 
-What is optimised vs. what is documented. The comment in the source documents `C_ij = 0` if the enclosing circle of
-`p_i … p_{j−1}` is `> diameter`, `0` if the duration between `p_i` and `p_{j−1}` is `< duration`, `(j−i)²` otherwise.
-The code optimises `stopsReward`, which agrees with that except on the two boundaries: a segment lasting EXACTLY
-`duration` and a circle of diameter EXACTLY `diameter` get reward `0` (tests `<= duration`, `2·radius < diameter`),
-whereas the documented criterion — and the function's own final filter (`radius > diameter/2`, `duration() <
-duration`) — count them as stops; a `None` circle also gets `0`. The `break` agrees with the documented criterion (an
-end point farther than `diameter` from `p_i` forces every longer enclosing circle above `diameter`) for exact
-geometry. The candidates are `0 … size−2` and segment `(a, b)` covers `p_a … p_{b−1}`: the last two observations
-belong to no segment. -/
+/-- **T3 (stop detection)**: the segmentation computed inside `findStopsGlobal` (and `findStopsGlobalForRTK`) is a strictly
+increasing list from `0` to `size − 2` that MAXIMISES the summed reward `Σ stopsReward(i_k, i_{k+1})` over all such lists;
+with `stops_documented`, `findStopsGlobal` maximises the criterion it documents. The candidates are `0 … size−2` and
+segment `(a, b)` covers `p_a … p_{b−1}`: the last two observations belong to no segment. -/
 theorem stops_optimal (sq : Nat → α) (p : StopPred) (size : Nat) (h : 3 ≤ size)
     (π : List Nat) (h0 : π.head? = some 0) (hN : π.getLast? = some (size - 2)) (hinc : π.Pairwise (· < ·)) :
     (stopsSegmentation 0 sq p size).head? = some 0 ∧
@@ -551,6 +586,19 @@ def exStops : StopPred where
 example : stopsSegmentation (0 : Int) (fun n => (n * n : Nat)) exStops 6 = [0, 3, 4] := by decide +kernel
 example : (List.range 5).map (stopsMatrix (0 : Int) (fun n => (n * n : Nat)) exStops 6 0) = [0, 0, 4, 9, 0] := by decide +kernel
 example : stopsReported (0 : Int) (fun n => (n * n : Nat)) exStops (fun _ _ => true) 6 = [(0, 2), (3, 3)] := by decide +kernel
+
+/-! `findStopsGlobal`'s tests on the regression witness of 026cb79: three fixes within 2 m at t = 0, 30, 60 — a group lasting
+EXACTLY the minimal duration 60 — then jumps of 40 m. With the inclusive boundary the group is rewarded (9) and found. -/
+def exTime : Nat → Int := fun i => ([0, 30, 60, 61, 62, 63] : List Int).getD i 0
+def exDist : Nat → Nat → Int := fun i e => if i = e then 0 else if i < 3 ∧ e < 3 then 2 else 40
+def exStopsG : StopPred := stopPredGlobal exDist (fun i e => exTime e - exTime i) (fun i e => some (exDist i e)) 20 60
+
+example : (List.range 5).map (stopsMatrix (0 : Int) (fun n => (n * n : Nat)) exStopsG 6 0) = [0, 0, 0, 9, 0] := by decide +kernel
+example : stopsSegmentation (0 : Int) (fun n => (n * n : Nat)) exStopsG 6 = [0, 3, 4] := by decide +kernel
+-- a circle of diameter exactly `diameter` is admitted, a longer minimal duration is not
+example : (stopPredGlobal exDist (fun i e => exTime e - exTime i) (fun i e => some (exDist i e)) 2 60).small 0 2 = some true := by decide
+example : stopsSegmentation (0 : Int) (fun n => (n * n : Nat))
+    (stopPredGlobal exDist (fun i e => exTime e - exTime i) (fun i e => some (exDist i e)) 20 61) 6 = [0, 4] := by decide +kernel
 
 /-! `optimal_bracketed`: its monotonicity hypothesis holds for ℤ (and, outside Lean, for doubles without NaN) -/
 example : ∃ t : Br, t.WF ∧ t.chain = optimalPartition 0 5 exC 0 ∧
